@@ -96,10 +96,10 @@ func main() {
 			"mode full (N<=4, CPK <=5 quick; <=5, CPK <=6 thorough): every pair at every step = every order and every tree shape (N!(N-1)!/2^(N-1) histories); mode adjacent: every tree shape in index order ((N-1)! histories); " +
 			"mode leftdeep (N=6..8): every fold order within <= `bound` departures from index order (the cap: 2 quick, 3 thorough). Per merge one of 10 variants (for CPK 8) (plain, operands swapped, MarshalBinary hop of either operand, output aliasing either operand, " +
 			"WriteTo/ReadFrom hop of the first operand over a one-byte-per-read transport / of the second over a transport whose first read ends at byte 5, UnmarshalBinary of the first / second operand into a receive buffer that already holds a share of the largest / smallest shape). Chains include one with 60/61-bit primes in Q and P at 5..8 parties. Two more non-free axes per leaf: how the parties' protocol objects were obtained " +
-			"(ShallowCopies of party 0's, all constructed, a chain of copies) and what they did before (nothing / a run at a lower shape with the same key objects / a run at another shape with other keys). At most `bound` (1; 2 in thorough for N<=4) non-default answers over all non-free axes. " +
+			"(ShallowCopies of party 0's, all constructed, a chain of copies) and what they did before (nothing / a run at a lower shape with the same key objects / a run at another shape with other keys). At most `bound` (1; 2 in thorough for N<=3) non-default answers over all non-free axes. " +
 			"Every transition is compared with the coefficient-wise modular sum of the member shares (so equal partitions hold equal shares and all terminal states coincide); " +
 			"each terminal state's key is then used by the single-party encryptor/evaluator and read with an independent, ring-type aware phase computation under the ideal secret sum(s_i). " +
-			"Mismatch scenarios enumerate every operand position of a share with a different Galois element / level / decomposition; CRS scenarios replay every call sequence of length <=3 by two parties.",
+			"Mismatch scenarios enumerate every operand position of a share with a different Galois element / level / decomposition; a refused call must leave receiver, inputs and callee deep-equal (reflective snapshot incl. labels and metadata) to what they were, a previously valid receiver must still verify against the ideal secret, and the next legal call on the same protocol object must equal the same call on a fresh object; CRS scenarios replay every call sequence of length <=3 by two parties.",
 		Assumptions: []string{
 			"all parties use the same parameters, the same CRS key and the same sequence of SampleCRP calls",
 			"noise bound: N x the support-derived single-party worst case (Xe truncated at floor(6 sigma+0.5), ternary secrets; a product in the ring has N terms per coefficient, 2N in the conjugate-invariant ring) for CPK/GAL/EVK; for RLK the support-derived N-party worst case (its s*e0+u*e1 term is a product of two N-party sums, hence quadratic in N: no linear worst-case bound exists)",
@@ -129,7 +129,7 @@ func expect(tier string) []string {
 		"ntt=true", "ntt=false", "b2=0", "b2=7", "b2=16", "lp=-1", "lp=0", "lp=1", "lq=0",
 		"functional=key-rows", "functional=cpk-encrypt", "functional=rlk-relinearize", "functional=gal-automorphism", "functional=evk-reencrypt",
 		"digits=unequal", "crs=replayed",
-		"mismatch=gal/galEl", "mismatch=evk/levelQ", "mismatch=evk/levelP", "mismatch=evk/base2", "mismatch=rlk/levelQ", "mismatch=rlk/base2",
+		"mismatch=gal/galEl", "mismatch=gal/gen-into-valid-key", "refused-call=operands-unchanged-checked", "refused-call=aftermath-checked", "alias=key-vs-inputs-and-callee", "mismatch=evk/levelQ", "mismatch=evk/levelP", "mismatch=evk/base2", "mismatch=rlk/levelQ", "mismatch=rlk/base2",
 	}
 	for g := uint64(1); g < 32; g += 2 {
 		e = append(e, fmt.Sprintf("galEl=%d", g))
